@@ -240,8 +240,8 @@ def oracle_order(case):
 
 
 SUBS = [
-    Sub('axioms_reference', axioms_strategy(), oracle_axioms, quick=1600, thorough=48000, use_target=True),
-    Sub('rectangles', rect_strategy(), oracle_rect, quick=1600, thorough=48000, use_target=True),
-    Sub('generator', gen_strategy(), oracle_generator, quick=1600, thorough=48000, use_target=True),
-    Sub('theta_order', order_strategy(), oracle_order, quick=1600, thorough=48000, use_target=True),
+    Sub('axioms_reference', axioms_strategy(), oracle_axioms, quick=1600, thorough=240000, use_target=True),
+    Sub('rectangles', rect_strategy(), oracle_rect, quick=1600, thorough=240000, use_target=True),
+    Sub('generator', gen_strategy(), oracle_generator, quick=1600, thorough=240000, use_target=True),
+    Sub('theta_order', order_strategy(), oracle_order, quick=1600, thorough=240000, use_target=True),
 ]
